@@ -19,7 +19,7 @@ import json
 import os
 import random
 
-from ..core import unjson
+from ..core import batches, unjson
 from ..deviations import active, tla_set
 from ..tlc import MachineryError, SPECS, require_coverage, run_tlc, write_cfg
 from ..realise import conv_real as C
@@ -35,8 +35,8 @@ STRK = '{"page", "figure", "image", "char"}'
 CONFIGS = {
     "quick": [("shapes-all", "AllKinds", 4, "Palette2"), ("shapes-text", TEXTK, 6, "Palette1"),
               ("shapes-figure", FIGK, 4, "Palette1"), ("strings", STRK, 3, "Str2")],
-    "thorough": [("shapes-all", "AllKinds", 5, "Palette3"), ("shapes-text", TEXTK, 7, "Palette2"),
-                 ("shapes-figure", FIGK, 5, "Palette3"), ("strings", STRK, 3, "Str3"), ("shapes-all6", "AllKinds", 6, "Palette1")],
+    "thorough": [("shapes-all", "AllKinds", 5, "Palette2"), ("shapes-text", TEXTK, 7, "Palette1"),
+                 ("shapes-figure", FIGK, 5, "Palette2"), ("strings", STRK, 3, "Str3"), ("shapes-all6", "AllKinds", 6, "Palette1")],
 }
 CODECS = [(C.K_UTF8, "utf-8", "u8"), (C.K_UTF16, "utf-16", "u16"), (C.K_LATIN1, "latin-1", "l1")]
 XML_DECL = '<?xml version="1.0" ?>'
@@ -218,9 +218,12 @@ def replay_tree(ck, judge, T, conv, strip, imgw, rep, label, sample=False):
 
 
 def direction_a_model(ck, dev, judge):
-    devs = "{{}" + ((", " + tla_set(dev)) if dev else "") + "}"
     total = 0
     for (label, kinds, maxn, strings) in CONFIGS[ck.tier]:
+        # the as-coded design is explored where the deviations can show (names of figures, every string, every sink);
+        # elsewhere as-coded outputs come from the transcription, which these runs validate
+        both = label in ("strings", "shapes-figure")
+        devs = "{{}" + ((", " + tla_set(dev)) if (dev and both) else "") + "}"
         mod = "Run_" + label.replace("-", "_")
         wrapper = os.path.join(ck.tmp, mod + ".tla")
         with open(wrapper, "w") as f:
@@ -251,12 +254,16 @@ def direction_a_model(ck, dev, judge):
         os.remove(emit)
         if n != res.emitted or n == 0:
             raise MachineryError("emitted %d terminal states but read %d" % (res.emitted, n))
+        ck.extra.setdefault("terminal_states_per_config", {})[label] = n
         total += n
     ck.extra["terminal_states_checked_against_transcription"] = total
 
 
 def teeth(ck):
-    """each named deviation, switched on alone, makes TLC report a violation of the predicate it is said to break"""
+    """each named deviation, switched on alone, makes TLC report a violation of the predicate it is said to break
+    (thorough tier; the quick tier checks the same on the validated transcription: see teeth_quick)"""
+    if ck.tier == "quick":
+        return teeth_quick(ck)
     pairs = [("FigureNameRaw", "P_XMLWellFormed"), ("TextSinkUtf8", "P_SinkIndependent"), ("BomPerWrite", "P_XMLWellFormed")]
     if ck.tier == "thorough":
         pairs += [("BomPerWrite", "P_SinkIndependent"), ("FigureNameRaw", "P_XMLParsesBackToTree")]
@@ -275,6 +282,17 @@ def teeth(ck):
             raise MachineryError("vacuous: deviation %s does not violate %s in the specification" % (d, inv))
         found["%s/%s" % (d, inv)] = len(res.error_trace)
     ck.extra["deviation_counterexample_lengths"] = found
+
+
+def teeth_quick(ck):
+    T = [{"k": "page", "d": 0, "s": [], "f": [], "a": 0}, {"k": "figure", "d": 1, "s": [C.LT, C.AMP, C.QUOT], "f": [], "a": 0},
+         {"k": "char", "d": 2, "s": [C.NONASCII], "f": [C.QUOT], "a": 0}]
+    base = C.model_chars(T, "xml", False, False, set())
+    if C.model_chars(T, "xml", False, False, {"FigureNameRaw"}) == base:
+        raise MachineryError("vacuous: FigureNameRaw changes nothing in the model")
+    for d, conv, e in (("TextSinkUtf8", "text", C.K_LATIN1), ("BomPerWrite", "xml", C.K_UTF16)):
+        if C.model_units(T, conv, False, False, {d}, e) == C.model_units(T, conv, False, False, set(), e):
+            raise MachineryError("vacuous: %s changes nothing in the model" % d)
 
 
 # ------------------------------------------------------------------------------------------------ A2: generated PDFs
@@ -562,15 +580,17 @@ def validate_traces(ck, traces, dev, label="recorded converter runs"):
     tf = os.path.join(ck.tmp, "c11_traces.json")
     cfg = write_cfg(os.path.join(ck.tmp, "c11_trace.cfg"), constants={"Dev": tla_set(dev) if dev else "{}"}, spec="Spec",
                     invariants=["StackIsPath", "CursorInRange"], deadlock=True)
-    todo = list(traces)
     rejected = 0
-    while todo:
+    # one batch is one TLC behaviour (about 2 steps per node); TLC cannot handle behaviours of 65,536 or more states
+    queue = batches(list(traces), lambda tr: 2 * len(tr["T"]) + 4, limit=40000)
+    while queue:
+        todo = queue.pop(0)
         with open(tf, "w") as f:
             json.dump(todo, f)
         res = run_tlc(TRACE_SPEC, cfg, workers=1, env={"TRACE_FILE": tf}, timeout=3600, heap="8g")
         ck.add_tlc(res, "trace validation of %d %s" % (len(todo), label))
         if res.ok:
-            break
+            continue
         if res.violated != "deadlock" or not res.error_trace:
             raise MachineryError("trace validation failed unexpectedly: " + res.error_text[:2000])
         st = res.error_trace[-1][1]
@@ -583,10 +603,12 @@ def validate_traces(ck, traces, dev, label="recorded converter runs"):
                      "recorded %s run over %s is not a behaviour of the converter specification: at node %d (%s) the recording "
                      "continues with %r" % (tr["conv"], tr["origin"], i, node and node["k"], nxt),
                      {"origin": tr["origin"], "conv": tr["conv"], "node_index": i, "node": node, "position": o, "next": nxt})
-        todo = todo[t:]
-        if rejected >= 3 and todo:
-            ck.note("%d recorded traces left unexamined after 3 rejections" % len(todo))
-            rejected += len(todo)
+        if todo[t:]:
+            queue.insert(0, todo[t:])
+        left = sum(len(b) for b in queue)
+        if rejected >= 3 and left:
+            ck.note("%d recorded traces left unexamined after 3 rejections" % left)
+            rejected += left
             break
     return rejected
 
@@ -611,6 +633,12 @@ def direction_b(ck, dev, judge):
             if not pages:
                 continue
             Tp, objs = C.project(pages)
+            if len(Tp) > 15000:            # keep one recording well inside one TLC behaviour
+                pages, out = record_sample(fn, conv, la, strip, 1)
+                Tp, objs = C.project(pages)
+                if len(Tp) > 15000:
+                    skipped += 1
+                    continue
             rp = {"origin": origin, "conv": conv, "laparams": lakey, "strip": strip}
             # the property's predicates, directly
             if conv == "text":
